@@ -12,6 +12,7 @@ import (
 	"go/constant"
 	"go/types"
 	"sort"
+	"strings"
 
 	"golang.org/x/tools/go/ssa"
 )
@@ -215,6 +216,13 @@ func checkC17(p *Prog, r *Report) {
 		for _, b := range []int64{tr.lo, -1, 0, maxC + 1, maxC + 2, tr.hi} {
 			addP("boundary", b)
 		}
+		// the values between the declared ones too: a sparse table (zero-width index entries for unassigned
+		// numbers) formats them as the empty string unless the stringer tests for it
+		if maxC <= 512 {
+			for v := int64(0); v < maxC; v++ {
+				addP("gap", v)
+			}
+		}
 		key := fmt.Sprintf("%s | fold over %s", fnName(f), "declared constants and boundary values")
 		at := p.posStr(f.Pos())
 		bad, und := "", ""
@@ -238,6 +246,47 @@ func checkC17(p *Prog, r *Report) {
 		} else {
 			folded++
 			r.OK("STRFOLD", key, at, fmt.Sprintf("%d values folded without panic", len(probes)))
+		}
+		// ONEFALLBACK: the values that have no name of their own all format the same way
+		if f.Name() == "String" && und == "" && bad == "" {
+			declared := map[int64]bool{}
+			for _, c := range consts {
+				declared[c.val] = true
+			}
+			for k := range rows {
+				if n, ok := atoi(k); ok {
+					declared[n] = true
+				}
+			}
+			byName := map[string][]int64{}
+			for _, pr := range probes {
+				nm, ok := names[pr.v]
+				if !ok || declared[pr.v] || strings.Contains(nm, fmt.Sprint(pr.v)) {
+					continue // a numbered fallback ("Unknown(7)") differs by construction
+				}
+				byName[nm] = append(byName[nm], pr.v)
+			}
+			nk := fnName(f) + " | values without a name of their own share one fallback"
+			if len(byName) > 1 && len(consts) > 0 {
+				var parts []string
+				for nm, vs := range byName {
+					sort.Slice(vs, func(i, j int) bool { return vs[i] < vs[j] })
+					if len(vs) > 4 {
+						vs = vs[:4]
+					}
+					parts = append(parts, fmt.Sprintf("%q for %v", nm, vs))
+				}
+				sort.Strings(parts)
+				r.Bad("ONEFALLBACK", nk, at, "undeclared values format differently: "+strings.Join(parts, ", ")+" - an unassigned number inside a sparse table gets a zero-width or foreign name instead of the fallback the other unknown values get")
+			} else {
+				r.OK("ONEFALLBACK", nk, at, fmt.Sprintf("%d undeclared values probed, one fallback", func() int {
+					n := 0
+					for _, v := range byName {
+						n += len(v)
+					}
+					return n
+				}()))
+			}
 		}
 		// DOCNAME
 		if f.Name() == "String" && len(rows) > 0 {
@@ -268,6 +317,8 @@ func checkC17(p *Prog, r *Report) {
 	}
 	ruleTblName(p, r, fd, ms)
 	ruleSubTag(p, r, fd)
+	ruleCmpName(p, r, fd)
+	r.Floor("CMPNAME", 40)
 	r.Floor("SUBTAG", 15)
 	r.Floor("TBLNAME", 5)
 	r.Extra("stringers_folded", folded)
